@@ -136,6 +136,8 @@ class NormInterp:
                         (nxt if tr == isand else res).append(e2 if tr == isand else (tr, e2))
                 states = nxt
             return res + [(isand, e) for e in states]
+        if isinstance(t, ast.Constant):
+            return [(bool(t.value), env)]
         var = None
         lang = None
         if isinstance(t, ast.Name):
